@@ -13,7 +13,8 @@
    kept terminal has a region (taken in the INPUT tree = its activation region) that is non-empty within tol, a
    terminal with a non-empty region is kept (C06_count_mask), hence #full-dimensional <= #terminals <= #non-empty
    closed for any admissible classification (C06_count_between), with equality to #non-empty at tol = 0
-   (C06_count_exact_tol0); the same for every pipeline input (C06_count_*_pipeline).  The runner still decides the
+   (C06_count_exact_tol0); the same for every pipeline input (C06_count_*_pipeline), and for a whole distilled
+   network against the un-pruned reference pipeline (C06_network_mask / _lower_bound / _exact_tol0, Pwl/ElimCountNet.v).  The runner still decides the
    sentence per instance on the implementation's output by certified enumeration (tag region-count). *)
 From AT Require Import Num Vec Aff PTree Cells Abs Cache Elim ElimEval ElimCache ElimEff ElimExample.
 
